@@ -898,6 +898,28 @@ def service_helpers(src):
         raise Skip("service::disconnect / verify_response_header changed shape")
     return tuple(sorted([md.group(1), md.group(2)]))
 
+
+# ------------------------------------------------------------------ the servers' per-connection loop (shape)
+def process_shape(src):
+    fn = block_after(src, r"async\s+fn\s+process\s*<")
+    t = re.sub(r'"(?:[^"\\]|\\.)*"', '""', fn)                     # string literals carry braces and parentheses of their own
+    t = re.sub(r"log::\w+!\([^;]*\);", "", t)
+    t = "".join(t.split())
+    t = re.sub(r"\.inspect_err\(\|err\|\{\}\)", "", t)
+    mm = re.fullmatch(
+        r"loop\{"
+        r"letSome\(request_adu\)=framed\.next\(\)\.await\.transpose\(\)\?else\{(break|continue);\};"
+        r"letRequestAdu\{hdr,pdu:RequestPdu\(request\),\}=&request_adu;"
+        r"lethdr=\*hdr;"
+        r"letfc=request\.function_code\(\);"
+        r"letOptionalResponsePdu\(Some\(response_pdu\)\)=service\.call\(request_adu\.into\(\)\)\.await\.map\(Into::into\)"
+        r"\.map_err\(\|e\|ExceptionResponse\{function:fc,exception:e\.into\(\),\}\)\.into\(\)else\{(break|continue);\};"
+        r"framed\.send\(ResponseAdu\{hdr,pdu:response_pdu,\}\)\.await\?;"
+        r"\}Ok\(\(\)\)", t)
+    if not mm:
+        raise Skip("the per-connection loop `process` changed shape")
+    return (mm.group(1), mm.group(2))
+
 # ------------------------------------------------------------------ emit
 def s2l(name):
     return 's2l "%s"' % name
@@ -1022,6 +1044,12 @@ def main():
     piece("gen_rtu_call", "list ctok * (list N * list N)", model_call, lambda: call_shape(srcs["srtu"]), emit_call)
     piece("gen_TID", "N * N", "(0, 1)", lambda: tid_shape(srcs["stcp"]), lambda t: "(%d, %d)" % t)
     piece("gen_disc_tolerated", "list N * list N", '(s2l "BrokenPipe", s2l "NotConnected")', lambda: service_helpers(srcs["smod"]), lambda t: "(%s, %s)" % (s2l(t[0]), s2l(t[1])))
+    for key, rel in (("gen_tcp_process", "src/server/tcp.rs"), ("gen_rtu_over_tcp_process", "src/server/rtu_over_tcp.rs"), ("gen_rtu_process", "src/server/rtu.rs")):
+        try:
+            ssrc = strip_comments(read(rel))
+        except Skip:
+            ssrc = ""
+        piece(key, "list N * list N", '(s2l "break", s2l "continue")', (lambda x: (lambda: process_shape(x)))(ssrc), lambda t: "(%s, %s)" % (s2l(t[0]), s2l(t[1])))
     piece("gen_LEN_MAX", "N * N", "(65535, 255)", lambda: len_helpers(codec), lambda t: "(%d, %d)" % t)
     os.makedirs(os.path.dirname(OUT), exist_ok=True)
     new = "\n".join(out) + "\n"
